@@ -703,7 +703,26 @@ func c16MapLoops(p *load.Prog, r *oblig.Run) {
 // (compareStrings) hands them over in that order, each computed from its own operand.
 func c16OperandSides(p *load.Prog, r *oblig.Run) {
 	r.Rule("R16.n", "the helpers that prepare the operands of a comparison compute the left value from the left operand only and the right value from the right operand only", 3)
+	// a helper that keeps the sides apart itself (checked as its own obligation): its i-th result stands for its i-th operand
+	sided := func(h *ssa.Function) bool {
+		if h == nil || pkgPathOf(h) != load.PkgQ || len(h.Blocks) == 0 || len(h.Params) < 2 || !types.Identical(h.Params[0].Type(), h.Params[1].Type()) {
+			return false
+		}
+		res := h.Signature.Results()
+		return res.Len() >= 2 && types.Identical(res.At(0).Type(), res.At(1).Type())
+	}
 	depsOf := func(v ssa.Value) map[*ssa.Parameter]bool {
+		for i := 0; i < 6; i++ {
+			ex, ok := v.(*ssa.Extract)
+			if !ok || ex.Index > 1 {
+				break
+			}
+			call, ok := ex.Tuple.(*ssa.Call)
+			if !ok || !sided(call.Call.StaticCallee()) || len(call.Call.Args) < 2 {
+				break
+			}
+			v = call.Call.Args[ex.Index]
+		}
 		out := map[*ssa.Parameter]bool{}
 		paramDeps(v, out, map[ssa.Value]bool{})
 		return out
